@@ -17,9 +17,10 @@ VARIABLES p, q
 TailPaths == {BGP(100, 2, 0, 0, FALSE, id, oid, cl, src, nh) :
                 id \in {1, 2}, oid \in {0, 1, 2}, cl \in {-1, 0, 1, 2}, src \in {1, 2}, nh \in {1, 2}}
 (* head: every combination of the earlier steps, plus one later step *)
-HeadPaths == {BGP(lp, aslen, origin, med, ebgp, id, 0, -1, 1, 1) :
+(* nas: which neighbour AS the AS_PATH starts with; it takes no part in the decision (MED is compared across all neighbour ASes) *)
+HeadPaths == {BGP(lp, aslen, origin, med, ebgp, id, 0, -1, 1, 1) @@ [nas |-> n] :
                 lp \in {100, 200}, aslen \in {1, 2}, origin \in {0, 2}, med \in {0, 10},
-                ebgp \in {TRUE, FALSE}, id \in {1, 2}}
+                ebgp \in {TRUE, FALSE}, id \in {1, 2}, n \in {1, 2}}
 StaticPaths == {Static(nh) : nh \in {1, 2, 3}} \cup
                {BGP(100, 2, 0, 0, FALSE, id, 0, -1, 1, 1) : id \in {1, 2}}
 
